@@ -221,6 +221,23 @@ impl Check for Registries {
         let mut topics: BTreeSet<u32> = BTreeSet::new();
         let mut triples: BTreeSet<(u32, u32, u32)> = BTreeSet::new();
         let focus_key = rng.below(3) as u32;
+        // limit scenario for the trusted-issuer registry (a quarter of its big runs): MAX_ISSUERS issuers, one more refused,
+        // one removed, another admitted
+        if kind == Kind::Cti && big && rng.chance(25) {
+            steps.push(Step::AddTopic { t: 0 });
+            topics.insert(0);
+            for i in 0..50u32 {
+                steps.push(Step::AddIssuer { i, ts: vec![0] });
+                present.insert(i);
+            }
+            steps.push(Step::AddIssuer { i: 50, ts: vec![0] });
+            let gone = rng.below(50) as u32;
+            steps.push(Step::RemoveIssuer { i: gone });
+            present.remove(&gone);
+            steps.push(Step::AddIssuer { i: 51, ts: vec![0] });
+            present.insert(51);
+            steps.push(Step::AddIssuer { i: 52, ts: vec![0] });
+        }
         // limit scenario for the keys registry (a fifth of its runs): one topic filled to MAX_KEYS_PER_TOPIC distinct keys,
         // one more refused, then keys that are already in the full topic allowed for further registries (must succeed),
         // one removed and a new one admitted
